@@ -60,6 +60,13 @@ CLAIMS = {
          "returns s (UTF-8 encode/decode inverse for all scalar values). Double literals, double->text (shortest digits) and text->double are modelled "
          "exactly but their round trip is only tested (partial lemma). Tied to the code by boundary sets and random 64-bit patterns in every literal form "
          "and through every conversion, with the laws evaluated on the implementation's answers; debug and release in the thorough tier."),
+ "C02": ("Theorem (structural induction over expressions with a nested induction principle, no axioms): for every well-formed context (any "
+         "variables, built-ins with their default signatures, host functions of any arity/extractors) and every expression without the parser's error "
+         "placeholder, Eval.eval never reaches the Crash outcome - the model's transcription of every panic site of Value::resolve, the extractors and "
+         "the built-ins; a function body is only called with values of the shapes its extractors produce; all value operators are total on all value "
+         "pairs. Termination is the structural Fixpoint. Tied to the code by all pairs of a ~110-value boundary set under the five operators on Value "
+         "directly, and by generated programs of depth <= 8 against contexts with extreme values (debug and release in the thorough tier); any "
+         "implementation panic is reported as a failing input. Panics inside untranscribed library code are reachable only by that run."),
  "C06": ("Theorems that Eval.eval (a structural Fixpoint transcribing Value::resolve) returns the left operand's outcome "
          "and host-call log alone when && / || are decided by it, evaluates exactly one branch of ?:, and propagates a "
          "left error - for every context and operand expression, hence at every depth and inside macro bodies. Tied to the "
